@@ -654,7 +654,9 @@ class C07(Prop):
     level_text = ("Theorems C07_* (coq/Props/C07.v): for every state in which an id has no template in either map of that protocol, a V9 flowset of that "
                   "id (id not 0/1) fails whatever its bytes and the packet with it, an IPFIX set of that id (id >= 255) fails and ends the set loop "
                   "successfully with the sets before it, the state is untouched in both cases, and the id stays unknown until a template of that id is "
-                  "inserted; the other protocol's maps are not arguments of the step.")
+                  "inserted; the other protocol's maps are not arguments of the step. Packet level: C07_v9_packet (flowsets that decode, then data for an "
+                  "unknown id: one Error carrying the buffer from that packet on, caches exactly what the earlier flowsets made them) and "
+                  "C07_ipfix_message (conformant sets, an unknown set, anything after it inside the message: reported with exactly the sets before it).")
     level_note = "the unwrap_or_default() fall-backs are absent from the model (the lookup that guards them is the one matched on); that they are unreachable in the crate is covered by correspondence"
     rule = ("histories in which a data flowset/set arrives before its template: alone or after other packets in the same buffer, with the id defined only "
             "for the other protocol or only in another parser instance, then (80%) the template and the same data again; non-trivial = the later data "
